@@ -1,4 +1,129 @@
-(** placeholder while the proofs are being written *)
-Require Import NixV.Access.Retrieval NixV.Access.RetrievalSpec.
-Example placeholder : code_today <> repaired. Proof. discriminate. Qed.
-Print Assumptions placeholder.
+(** C06 — MultiTag retrieval returns exactly region i for position index i.
+    Model: Access/Retrieval.v (getOffsetAndCount(MultiTag ...) with its three phases, taggedData, featureData).
+    Specification: Access/RetrievalSpec.v ([mtag_wants]: row i of positions / extents; [region_is]; [spec_answer_mtag]).
+    Proofs: Access/RetrievalMTag.v (the list retrieval is judged index by index), RetrievalProofs.v, RetrievalClosed.v.
+
+    [repaired] / [repaired_except_pinned] / the pinned defect: see Properties_C05.v.  [mtag_ok], [mtag_index_ok]
+    are the domain of the statement (decidable, checked by the extracted oracle). *)
+From Coq Require Import ZArith Bool String List.
+Require Import NixV.Base.Prelude NixV.Base.F64 NixV.Gen.GenDimensions.
+Require Import NixV.Access.Retrieval NixV.Access.RetrievalSpec NixV.Access.RetrievalAxis NixV.Access.RetrievalDomain
+               NixV.Access.RetrievalAssemble NixV.Access.RetrievalTag NixV.Access.RetrievalMTag
+               NixV.Access.RetrievalProofs NixV.Access.RetrievalClosed.
+Import ListNotations.
+Local Open Scope Z_scope.
+
+(** retrieval for position index i returns exactly the region whose start is row i of the positions array and
+    whose size is row i of the extents array *)
+Theorem mtag_exact mt a m i off cnt : mtag_ok mt a -> mtag_index_ok mt a i ->
+  (taggedData_mtag1 repaired mt i a m = Ok (off, cnt) <-> mtag_region (incl_of m) mt a i off cnt).
+Proof. exact (mtag_exact_c mt a m i off cnt). Qed.
+Print Assumptions mtag_exact.
+
+Theorem mtag_exact_partial mt a m i off cnt : mtag_ok mt a -> mtag_not_pinned mt a m -> mtag_index_ok mt a i ->
+  (taggedData_mtag1 repaired_except_pinned mt i a m = Ok (off, cnt) <-> mtag_region (incl_of m) mt a i off cnt).
+Proof. exact (mtag_exact_partial_c mt a m i off cnt). Qed.
+Print Assumptions mtag_exact_partial.
+
+Theorem mtag_exact_refuted :
+  exists mt a m i off cnt, mtag_ok mt a /\ mtag_index_ok mt a i /\
+    taggedData_mtag1 repaired_except_pinned mt i a m = Ok (off, cnt) /\
+    ~ mtag_region (incl_of m) mt a i off cnt.
+Proof. exact RetrievalProofs.mtag_exact_refuted. Qed.
+Print Assumptions mtag_exact_refuted.
+
+(** retrieval for a list of indices equals the list of the single retrievals *)
+Theorem mtag_list_is_map mt a m idxs : mtag_ok mt a -> mtag_not_pinned mt a m ->
+  idxs <> [] -> (forall i, In i idxs -> mtag_index_ok mt a i) ->
+  taggedData_mtag repaired_except_pinned mt idxs a m =
+  mapM (fun i => taggedData_mtag1 repaired_except_pinned mt i a m) idxs.
+Proof. exact (mtag_list_is_map_c mt a m idxs). Qed.
+Print Assumptions mtag_list_is_map.
+
+Theorem mtag_list_is_map_full mt a m idxs : mtag_ok mt a ->
+  idxs <> [] -> (forall i, In i idxs -> mtag_index_ok mt a i) ->
+  taggedData_mtag repaired mt idxs a m = mapM (fun i => taggedData_mtag1 repaired mt i a m) idxs.
+Proof. exact (mtag_list_is_map_full_c mt a m idxs). Qed.
+Print Assumptions mtag_list_is_map_full.
+
+(** the empty list stands for all positions (and is the empty list of views when there are none) *)
+Theorem mtag_all_positions mt a m : mtag_ok mt a -> mtag_not_pinned mt a m ->
+  (forall i, 0 <= i < mtag_npos mt -> mtag_index_ok mt a i) ->
+  taggedData_mtag repaired_except_pinned mt [] a m =
+  mapM (fun i => taggedData_mtag1 repaired_except_pinned mt i a m) (ziota (mtag_npos mt)).
+Proof. exact (mtag_all_positions_c mt a m). Qed.
+Print Assumptions mtag_all_positions.
+
+(** an index beyond the number of positions raises an out-of-bounds error *)
+Theorem mtag_index_oob mt a m i : mtag_ok mt a -> mtag_not_pinned mt a m ->
+  0 <= i -> mtag_npos mt <= i -> taggedData_mtag1 repaired_except_pinned mt i a m = Err E_OutOfBounds.
+Proof. exact (mtag_index_oob_c mt a m i). Qed.
+Print Assumptions mtag_index_oob.
+
+(** no undefined behaviour on an empty index list; the pinned code has it (witness) *)
+Theorem mtag_empty_list_defined mt a m : dims_dom (a_dims a) (a_shape a) = true ->
+  getOffsetAndCount_mtag repaired_except_pinned mt a [] m = Ok [].
+Proof. exact (RetrievalProofs.mtag_empty_list_defined mt a m). Qed.
+Print Assumptions mtag_empty_list_defined.
+
+Theorem mtag_empty_list_today : exists mt a m, dims_dom (a_dims a) (a_shape a) = true /\
+  is_ub (getOffsetAndCount_mtag code_today mt a [] m) = true.
+Proof. exact RetrievalProofs.mtag_empty_list_today. Qed.
+Print Assumptions mtag_empty_list_today.
+
+(** indexed features return slice i along the first dimension *)
+Theorem mtag_feature_indexed B mt f i m s0 rest :
+  f_link f = LIndexed -> a_shape (f_data f) = s0 :: rest ->
+  0 <= i < two64 - 1 -> 0 <= s0 < two64 -> (forall s, In s rest -> 1 <= s < two64) ->
+  n_shape (m_pos mt) <> [] ->
+  featureData_mtag_feat B mt [i] f m =
+  if (i <? mtag_npos mt) && (i <? s0) then Ok [(i :: zrepeat 0 (zlen rest), 1 :: rest)] else Err E_OutOfBounds.
+Proof. exact (RetrievalProofs.mtag_feature_indexed B mt f i m s0 rest). Qed.
+Print Assumptions mtag_feature_indexed.
+
+(** tagged features are cut like references, untagged features are returned whole (for every listed position) *)
+Theorem mtag_feature_dispatch B mt idxs f m : idxs <> [] ->
+  featureData_mtag_feat B mt idxs f m =
+  match f_link f with
+  | LTagged => taggedData_mtag B mt idxs (f_data f) m
+  | LUntagged =>
+      bind (nd_at (n_shape (m_pos mt)) 0) (fun n0 =>
+      if zmax_list idxs >=? n0 then Err E_OutOfBounds else mapM (fun _ => whole (f_data f)) idxs)
+  | LIndexed =>
+      bind (nd_at (n_shape (m_pos mt)) 0) (fun n0 =>
+      if zmax_list idxs >=? n0 then Err E_OutOfBounds else mapM (indexed_slice (f_data f)) idxs)
+  end.
+Proof. exact (RetrievalProofs.mtag_feature_dispatch B mt idxs f m). Qed.
+Print Assumptions mtag_feature_dispatch.
+
+(** the repaired model answers what the extracted oracle answers for position index i *)
+Theorem mtag_meets_oracle mt a m i : mtag_not_pinned mt a m -> 0 <= i ->
+  match spec_answer_mtag (incl_of m) mt a i with
+  | Region oc => taggedData_mtag1 repaired_except_pinned mt i a m = Ok oc
+  | Refuse => taggedData_mtag1 repaired_except_pinned mt i a m = Err E_OutOfBounds
+  | Unconstrained => True
+  end.
+Proof. exact (mtag_meets_oracle_c mt a m i). Qed.
+Print Assumptions mtag_meets_oracle.
+
+Theorem mtag_meets_oracle_full mt a m i : 0 <= i ->
+  match spec_answer_mtag (incl_of m) mt a i with
+  | Region oc => taggedData_mtag1 repaired mt i a m = Ok oc
+  | Refuse => taggedData_mtag1 repaired mt i a m = Err E_OutOfBounds
+  | Unconstrained => True
+  end.
+Proof. exact (mtag_meets_oracle_full_c mt a m i). Qed.
+Print Assumptions mtag_meets_oracle_full.
+
+(** non-vacuity: three positions with extents on a sampled x range array, retrieved as a list *)
+Example mtag_list_nonvacuous :
+  mtag_ok ex_mtag ex_array /\ mtag_not_pinned ex_mtag ex_array RangeMatch_Exclusive /\
+  taggedData_mtag repaired_except_pinned ex_mtag [0; 1; 2] ex_array RangeMatch_Exclusive
+  = Ok [([2; 1], [4; 1]); ([4; 0], [2; 2]); ([8; 2], [1; 1])] /\
+  mtag_region (incl_of RangeMatch_Exclusive) ex_mtag ex_array 1 [4; 0] [2; 2].
+Proof. exact RetrievalClosed.mtag_list_nonvacuous. Qed.
+Print Assumptions mtag_list_nonvacuous.
+
+(** OPEN OBLIGATION while the defects of DESIGN section 9 items 4, 19, 28, 31 are in the tree (see Properties_C05.v) *)
+Theorem current_is_repaired : current_behaviour = repaired_except_pinned.
+Proof. reflexivity. Qed.
